@@ -320,6 +320,22 @@ def nworkers():
     except ValueError:
         return os.cpu_count() or 1
 
+class EarlyStop(object):
+    """Stops handing out new runs once enough NEW violations were collected (a
+    broken tree violates in a large share of the runs; minimising three of them
+    is all a report needs).  Never triggers on a tree where the property holds."""
+    def __init__(self, is_violation, limit=25):
+        self.path = os.path.join(workdir(), 'stop-%d-%d' % (os.getpid(), id(self)))
+        self.is_violation, self.limit, self.count = is_violation, limit, 0
+    def __call__(self, i, rec):
+        try:
+            if self.is_violation(rec):
+                self.count += 1
+                if self.count == self.limit:
+                    open(self.path, 'w').close()
+        except Exception:
+            pass
+
 def parallel_runs(fn, indices, workers=None, wall_limit=None, progress=None):
     """Execute fn(i) for every i in indices in `workers` forked workers with a
     static assignment (position mod W), so the set of executions does not depend
@@ -328,6 +344,7 @@ def parallel_runs(fn, indices, workers=None, wall_limit=None, progress=None):
     runs -- it only shrinks the explored set, it never changes a verdict."""
     W = workers or nworkers()
     W = max(1, min(W, len(indices))) if indices else 1
+    stop_path = getattr(progress, 'path', None)
     procs = []
     t0 = time.monotonic()
     sys.stdout.flush(); sys.stderr.flush()
@@ -346,7 +363,8 @@ def parallel_runs(fn, indices, workers=None, wall_limit=None, progress=None):
                 os.dup2(dn, 1)          # the SUT's lexers print(); results travel by pipe
                 mine = indices[w::W]
                 for i in mine:
-                    if wall_limit is not None and time.monotonic() - t0 > wall_limit:
+                    if (wall_limit is not None and time.monotonic() - t0 > wall_limit) or \
+                            (stop_path is not None and os.path.exists(stop_path)):
                         rec = {'_skipped': True}
                     else:
                         try:
